@@ -5,6 +5,7 @@ pub mod bus;
 pub mod dev;
 pub mod devq;
 pub mod devs_cmd;
+pub mod devs_vsock;
 pub mod dynq;
 pub mod hal;
 pub mod mmio_dev;
